@@ -4,12 +4,9 @@
 #include "verif.h"
 typedef struct { uint32_t pn[8]; } base_uint256;
 #ifdef VERIF_CBMC
-#define VERIF_ASSERT(c) __CPROVER_assert(c, "assert() in the code holds")
 #define U256_OF(p) (((u256)(p)->pn[0]) | (((u256)(p)->pn[1]) << 32) | (((u256)(p)->pn[2]) << 64) | (((u256)(p)->pn[3]) << 96) | (((u256)(p)->pn[4]) << 128) | (((u256)(p)->pn[5]) << 160) | (((u256)(p)->pn[6]) << 192) | (((u256)(p)->pn[7]) << 224))
 #define U256_OLD(p) (((u256)__CPROVER_old((p)->pn[0])) | (((u256)__CPROVER_old((p)->pn[1])) << 32) | (((u256)__CPROVER_old((p)->pn[2])) << 64) | (((u256)__CPROVER_old((p)->pn[3])) << 96) | (((u256)__CPROVER_old((p)->pn[4])) << 128) | (((u256)__CPROVER_old((p)->pn[5])) << 160) | (((u256)__CPROVER_old((p)->pn[6])) << 192) | (((u256)__CPROVER_old((p)->pn[7])) << 224))
 #define ASSIGNS_PN(p) *(p)
 #else
-#include <assert.h>
-#define VERIF_ASSERT(c) assert(c)
 #endif
 #endif
